@@ -131,9 +131,15 @@ pub fn gen_schedules(rng: &mut Rng, odd: bool) -> SchedulesDb {
     db
 }
 
+/// names a user may type: accents, quotes, backslashes, control characters, characters outside the basic multilingual plane
+const ODD_NAMES: [&str; 8] = ["Vivienda 🏠 A", "𠀀𠀁 ático", "comillas \"dobles\" y \\ barra", "tab\ty\nsalto", "ñandú €uro", "\u{7f}\u{1}ctl", "𝔘-value 𝟚", "a\u{301}\u{200d}z"];
+
 pub fn gen_model(rng: &mut Rng, o: &GenOpts) -> Model {
     let mut m = Model::default();
-    m.meta.name = format!("gen{}", rng.below(100000));
+    // the envelope as a whole: 1 = nothing opaque towards outside air (every exterior wall is a curtain wall, the rest adiabatic),
+    // 2 = no exterior wall at all (party walls adiabatic or interior, slab on the ground); such buildings often have a blower-door result
+    let envelope_kind = if rng.chance(1, 12) { 1 } else if rng.chance(1, 12) { 2 } else { 0 };
+    m.meta.name = if o.odd && rng.chance(1, 2) { rng.pick(&ODD_NAMES).to_string() } else { format!("gen{}", rng.below(100000)) };
     m.meta.climate = ClimateZone::try_from(*rng.pick(&ZONES)).unwrap();
     m.meta.is_new_building = rng.chance(1, 2);
     m.meta.is_dwelling = rng.chance(1, 2);
@@ -143,7 +149,7 @@ pub fn gen_model(rng: &mut Rng, o: &GenOpts) -> Model {
     } else {
         None
     };
-    m.meta.n50_test_ach = if rng.chance(1, 3) {
+    m.meta.n50_test_ach = if rng.chance(1, 3) || (envelope_kind != 0 && rng.chance(2, 3)) {
         Some(if o.odd && rng.chance(1, 6) { 0.0 } else { rng.f(0.5, 9.0, 2) })
     } else {
         None
@@ -309,7 +315,7 @@ pub fn gen_model(rng: &mut Rng, o: &GenOpts) -> Model {
         let z = *rng.pick(&[0.0, 0.0, 0.0, -1.0, -2.5, 3.0]);
         m.spaces.push(Space {
             id: rng.uuid(),
-            name: format!("esp{i}"),
+            name: if o.odd && rng.chance(1, 6) { format!("{} {i}", rng.pick(&ODD_NAMES)) } else { format!("esp{i}") },
             multiplier: if o.odd && rng.chance(1, 10) {
                 0.5
             } else {
@@ -392,7 +398,11 @@ pub fn gen_model(rng: &mut Rng, o: &GenOpts) -> Model {
         // floor(s)
         let nfloors = if rng.chance(1, 6) { 2 } else { 1 };
         for k in 0..nfloors {
-            let bounds = *rng.pick(&[GROUND, GROUND, GROUND, EXTERIOR, INTERIOR, ADIABATIC]);
+            let bounds = match envelope_kind {
+                1 => ADIABATIC,
+                2 => *rng.pick(&[GROUND, GROUND, ADIABATIC]),
+                _ => *rng.pick(&[GROUND, GROUND, GROUND, EXTERIOR, INTERIOR, ADIABATIC]),
+            };
             let tilt = if o.odd { *rng.pick(&TILTS_BOTTOM) } else { 180.0 };
             let poly = if k == 0 && rng.chance(1, 5) {
                 lshape(a, b)
@@ -412,7 +422,7 @@ pub fn gen_model(rng: &mut Rng, o: &GenOpts) -> Model {
         }
         // roof
         if rng.chance(5, 6) {
-            let bounds = *rng.pick(&[EXTERIOR, EXTERIOR, EXTERIOR, INTERIOR, ADIABATIC, GROUND]);
+            let bounds = if envelope_kind != 0 { ADIABATIC } else { *rng.pick(&[EXTERIOR, EXTERIOR, EXTERIOR, INTERIOR, ADIABATIC, GROUND]) };
             let tilt = if o.odd { *rng.pick(&TILTS_TOP) } else { 0.0 };
             // the same rectangle listed from its second corner: the polygon's own frame (origin at its first vertex, x along its first
             // edge) then differs from the wall's local frame
@@ -461,19 +471,25 @@ pub fn gen_model(rng: &mut Rng, o: &GenOpts) -> Model {
             if rng.chance(1, 8) {
                 continue;
             }
-            let bounds = *rng.pick(&[EXTERIOR, EXTERIOR, EXTERIOR, INTERIOR, INTERIOR, GROUND, ADIABATIC]);
-            let tilt = if o.odd && !o.positions {
+            let bounds = match envelope_kind {
+                1 => *rng.pick(&[EXTERIOR, EXTERIOR, ADIABATIC]),
+                2 => *rng.pick(&[ADIABATIC, ADIABATIC, INTERIOR]),
+                _ => *rng.pick(&[EXTERIOR, EXTERIOR, EXTERIOR, INTERIOR, INTERIOR, GROUND, ADIABATIC]),
+            };
+            let tilt = if o.odd && !o.positions && envelope_kind != 1 {
                 *rng.pick(&TILTS_SIDE)
             } else {
                 90.0
             };
+            // one outline in six has its first edge split by an extra vertex: its first three vertices lie on one line
+            let side_poly = if rng.chance(1, 6) { vec![point![0.0, 0.0], point![len * 0.5, 0.0], point![len, 0.0], point![len, h], point![0.0, h]] } else { rect(len, h) };
             let wi = add_wall(
                 &mut m,
                 rng,
                 "muro",
                 tilt,
                 if o.positions { az } else { az + dev },
-                rect(len, h),
+                side_poly,
                 Some(pos),
                 bounds,
             );
@@ -484,7 +500,7 @@ pub fn gen_model(rng: &mut Rng, o: &GenOpts) -> Model {
             };
             // curtain wall: one window over the whole wall (net opaque area 0); windows larger than their wall are outside
             // what the properties quantify over (the net area would be negative)
-            let curtain = bounds == EXTERIOR && tilt == 90.0 && rng.chance(1, 10);
+            let curtain = bounds == EXTERIOR && tilt == 90.0 && (envelope_kind == 1 || rng.chance(1, 10));
             if curtain {
                 let wall = m.walls[wi].id;
                 m.windows.push(Window {
@@ -767,6 +783,19 @@ pub fn add_unused(rng: &mut Rng, m: &mut Model) {
                     temp_min: None,
                 },
             );
+        }
+    }
+    // ids are unique within each list only: an unused weekly schedule may carry the id of a yearly one that is in use, an unused daily
+    // one the id of a weekly one in use
+    if rng.chance(1, 2) && !m.schedules.year.is_empty() && !m.schedules.week.is_empty() && !m.schedules.day.is_empty() {
+        let some_day = m.schedules.day[0].id;
+        let yid = m.schedules.year[rng.below(m.schedules.year.len())].id;
+        m.schedules.week.push(ScheduleWeek { id: yid, name: "semana_con_id_de_anual".into(), values: vec![(some_day, 7)] });
+        let wid = m.schedules.week[rng.below(m.schedules.week.len() - 1)].id;
+        m.schedules.day.push(ScheduleDay { id: wid, name: "dia_con_id_de_semana".into(), values: vec![0.25; 24] });
+        if let Some(l) = m.loads.first() {
+            // and an unused space-loads definition is not made reachable by a thermostat of the same id
+            m.thermostats.push(Thermostat { id: l.id, name: "consignas_con_id_de_cargas".into(), temp_max: None, temp_min: None });
         }
     }
     for _ in 0..rng.range(0, 2) {
